@@ -1153,7 +1153,7 @@
                     (cons (regexp-match-submatch md 0)
                           (cons left (cdr a))))))))
     (define (final from md str a)
-      (if (or (< from end) (null? (cdr a)))
+      (if (or (< (car a) end) (null? (cdr a)))
           (cons (substring str (car a) end) (cdr a))
           (cdr a)))
     (reverse (regexp-fold rx kons (cons start '()) str final start end))))
